@@ -18,9 +18,10 @@ from . import routes as R
 from .refmodel import expr as X
 from .refmodel.expr import form, D
 
-UNIVERSE = ['Al', 'Cu', 'Fe', 'Ni']
+UNIVERSE = ['Al', 'Cu', 'Fe', 'Ni']          # enumerated exhaustively
+BIG = ['Al', 'Cu', 'Fe', 'Ni', 'Ag', 'Au']   # structured 5- and 6-element models
 CUSTOM = ['Xx', 'A', 'B', 'Zq']
-BUILTIN = {'Al': (13, 26.981538), 'Cu': (29, 63.546), 'Fe': (26, 55.845), 'Ni': (28, 58.6934)}
+BUILTIN = {'Al': (13, 26.981538), 'Cu': (29, 63.546), 'Fe': (26, 55.845), 'Ni': (28, 58.6934), 'Ag': (47, 107.8682), 'Au': (79, 196.96655)}
 OVERRIDE = {'Al': {'atomic_mass': 25.5}, 'Cu': {'lattice_constant': 3.61}, 'Fe': {'lattice_type': 'bcc', 'atomic_number': 99},
             'Ni': {'atomic_mass': 60.25, 'lattice_constant': 3.52, 'lattice_type': 'hcp'}}
 CUSTOM_DATA = {'Xx': {'atomic_number': 119, 'atomic_mass': 300.5}, 'A': {'atomic_number': 1, 'atomic_mass': 1.25, 'lattice_constant': 2.5},
@@ -29,8 +30,8 @@ CUSTOM_DATA = {'Xx': {'atomic_number': 119, 'atomic_mass': 300.5}, 'A': {'atomic
 
 
 def idx(el):
-    if el in UNIVERSE:
-        return UNIVERSE.index(el)
+    if el in BIG:
+        return BIG.index(el)
     return CUSTOM.index(el)
 
 
@@ -47,28 +48,28 @@ def dens_defn(el):
 
 
 def dens_fs_defn(a, b):
-    c = 1.0 + 0.37 * (4 * idx(a) + idx(b))
+    c = 1.0 + 0.37 * (8 * idx(a) + idx(b))
     return D(('>=', 0.0, form('exp_spline', 0.1 * c, -1.1, 0.02, 0.0, 0.0, 0.0, 0.0)))
 
 
 def _pk(a, b):
     i, j = sorted((idx(a), idx(b)))
-    return 4 * i + j
+    return 8 * i + j
 
 
 def pair_defn(a, b):
     k = _pk(a, b)
-    return D(('>=', 0.0, form('morse', 1.2 + 0.1 * k, 2.0 + 0.05 * k, 0.3 + 0.05 * k)))
+    return D(('>=', 0.0, form('morse', 1.2 + 0.02 * k, 2.0 + 0.01 * k, 0.3 + 0.01 * k)))
 
 
 def dip_defn(a, b):
     k = _pk(a, b)
-    return D(('>=', 0.0, form('polynomial', 0.5 + 0.1 * k, -0.2, 0.01)))
+    return D(('>=', 0.0, form('polynomial', 0.5 + 0.02 * k, -0.2, 0.01)))
 
 
 def quad_defn(a, b):
     k = _pk(a, b)
-    return D(('>=', 0.0, form('morse', 0.75 + 0.1 * k, 1.3, 0.2 + 0.01 * k)))
+    return D(('>=', 0.0, form('morse', 0.75 + 0.02 * k, 1.3, 0.2 + 0.002 * k)))
 
 
 ZERO = D(('>=', float('-inf'), form('zero')))
@@ -270,3 +271,22 @@ def grids(tier, small=False):
 
 
 CUTS = [(2.5, 50.0), (6.5, 100.0), (1.0, 1.0), (0.2, 0.9), (7.2, 3.6)]
+
+
+def big_models(fs, tier):
+    """structured 5- and 6-element models (beyond the exhaustively enumerated sizes): three element orders x pair-subset patterns
+    {all, none, every other, upper triangle reversed} [x density patterns for Finnis-Sinclair]"""
+    out = []
+    for n in (5, 6):
+        base = BIG[:n]
+        for oi, els in enumerate((base, base[::-1], base[2:] + base[:2])):
+            up = unordered_pairs(els)
+            for pi, pairs in enumerate((up, [], up[::2], orient(up[1::2], 1))):
+                if fs:
+                    allp = ['%s->%s' % (a, b) for a in els for b in els]
+                    dens = [allp, allp[::3], [p for p in allp if p.split('->')[0] != p.split('->')[1]]][(oi + pi) % 3]
+                else:
+                    dens = list(els) if (oi + pi) % 2 else list(reversed(els))
+                out.append(dict(fs=fs, embed=list(els), dens=dens, pairs=[list(p) for p in orient(pairs, pi % 3)], species='builtin',
+                                nr=3 + (oi + pi) % 3, cutoff=2.5, nrho=2 + (oi + pi) % 4, cutoff_rho=50.0))
+    return out
